@@ -2337,6 +2337,11 @@ func runSrvJob(job *ltsJob) *ltsRes {
 		if obs.ShutdownMs > limit {
 			add("shutdown-returns", "shutdown-slow", fmt.Sprintf("Shutdown took %d ms", obs.ShutdownMs))
 		}
+		// a handler that waits for its context IS cancelled once the grace period has expired (it gives up
+		// by itself only graceMs+1500 ms after it started)
+		if nc := w.info(1).notCancel.Load() + w.info(2).notCancel.Load(); nc > 0 {
+			add("grace", "not-cancelled-after-grace", fmt.Sprintf("%d handlers waiting for their context were never cancelled although Shutdown was called and its grace period (%d ms) expired: they gave up by themselves after %d ms", nc, graceMs, graceMs+1500))
+		}
 		// every connection is closed by the server: served and terminated, or refused
 		for i, cl := range clients {
 			if cl.c == nil {
@@ -2587,7 +2592,7 @@ func runLtsServer(ctx *Ctx) {
 func init() {
 	register(&Engine{
 		Name: "lts.srv",
-		Rule: "the real kmipserver.Server over unbuffered in-memory connections (half-close capable), in child processes (each child first runs a positive control of the goroutine profile and of the yield points): scripted clients (message sequences over {request, framed-undecodable (3 kinds), non-request message} up to 3 messages, pipelined, optionally made 300..70000 bytes bigger and handed to the transport in ONE write, optionally followed by a truncated message; reading all / none / one response; closing or half-closing when quiescent, after sending, after k responses, at a random time, or exactly while a server goroutine is held at one of the 5 connection yield points) x handler outcomes {ok, typed error, plain error, panic(string, error, kmipserver.Error, int, Stringer, runtime error, nil), sleep, wait for ctx (slow to return), error / panic values whose Error, String or Unwrap methods panic} x connect hook ok/fails; random scripts with random delays at the yield points; groups of 2-8 concurrent connections; iso jobs: one connection blocked (handler never returns / client does not read / connect hook does not return / goroutine held at a yield point, also behind TLS) while 2-5 neighbours must be accepted and served; tls jobs: a peer that never completes the TLS handshake must not keep others from being served; after each scenario: goroutine profile, hooks, server-side disconnect, liveness probe on a new connection, Shutdown; gates: every yield point reached, every directed point held at least once, neighbours served; distinct = distinct (scenario, outcome) line; nontrivial = at least one client message",
+		Rule: "the real kmipserver.Server over unbuffered in-memory connections (half-close capable), in child processes (each child first runs a positive control of the goroutine profile and of the yield points): scripted clients (message sequences over {request, framed-undecodable (3 kinds), non-request message} up to 3 messages, pipelined, optionally made 300..70000 bytes bigger and handed to the transport in ONE write, optionally followed by a truncated message; reading all / none / one response; closing or half-closing when quiescent, after sending, after k responses, at a random time, or exactly while a server goroutine is held at one of the 6 connection yield points, the first statement of handleConn included; every request names its connection in its id and payload, a successful response must echo both) x handler outcomes {ok, typed error, plain error, panic(string, error, kmipserver.Error, int, Stringer, runtime error, nil), sleep, wait for ctx (slow to return), error / panic values whose Error, String or Unwrap methods panic} x connect hook ok/fails; random scripts with random delays at the yield points; groups of 2-8 concurrent connections; iso jobs: one connection blocked (handler never returns / client does not read / connect hook does not return / goroutine held at a yield point, also behind TLS) while 2-5 neighbours must be accepted and served with the answers to THEIR requests and the blocked connection, once released, with the answer to ITS request (non-reading client: 2 processors, 27 exchanges per neighbour, repeated); tls jobs: a peer that never completes the TLS handshake must not keep others from being served; after each scenario: goroutine profile, hooks, server-side disconnect, liveness probe on a new connection, Shutdown; gates: every yield point reached, every directed point held at least once, neighbours served; distinct = distinct (scenario, outcome) line; nontrivial = at least one client message",
 		Run:  runLtsSrv,
 	})
 	register(&Engine{
